@@ -13,6 +13,9 @@ from common import Report, Violation, parallel_map, h, run_sentinels, scratch_di
 from sqlcase import RL, ms
 
 LAYOUT = dict(block=64, rowset=600, crc=True, first_key=True)
+# with `rowset=600` every row-set is larger than the compactor's target, so a compaction pass selects nothing; in the second
+# layout the target is large and a pass merges all row-sets of a table - reading the damaged one on the way
+LAYOUTS = {"small": LAYOUT, "merge": dict(block=64, rowset=1 << 20, crc=True, first_key=True)}
 
 SETUP = [
     "create table a(k int primary key, v varchar, w bigint)",
@@ -26,8 +29,8 @@ SETUP = [
 QUERIES = {"a": "select * from a", "b": "select * from b"}
 
 
-def build_pristine(base):
-    rl = RL("disk", LAYOUT, keep_dir=base)
+def build_pristine(base, layout="small"):
+    rl = RL("disk", LAYOUTS[layout], keep_dir=base)
     try:
         for s in SETUP:
             r = rl.sql(s)
@@ -96,9 +99,17 @@ def block_bounds(path):
     return out
 
 
+def rowset_dirs(d):
+    return sorted(x for x in os.listdir(os.path.join(d, "db")) if "_" in x and os.path.isdir(os.path.join(d, "db", x)))
+
+
 def run_mutation(args):
     pristine, ref, m = args
-    res = dict(m=m, violations=[], outcome=None, queries=0, detected=0, benign=0, inconclusive=None)
+    layout = m.get("layout", "small")
+    if isinstance(pristine, dict):
+        pristine, ref = pristine[layout], ref[layout]
+    LAYOUT = LAYOUTS[layout]
+    res = dict(m=m, violations=[], outcome=None, queries=0, detected=0, benign=0, inconclusive=None, merged=0, passes=0)
     d = scratch_dir("cor")
     try:
         shutil.copytree(os.path.join(pristine, "db"), os.path.join(d, "db"))
@@ -116,11 +127,17 @@ def run_mutation(args):
             res["outcome"] = "opened"
             for phase in ("first", "again", "third", "after-compaction"):
                 if phase == "after-compaction":
+                    before = rowset_dirs(d)
                     try:
                         rl.cmd({"op": "tick", "secs": 1})
+                        if layout == "merge":
+                            rl.cmd({"op": "tick", "secs": 1})
                     except Exception:
                         res["outcome"] = "died-in-compaction"
                         break
+                    res["passes"] += 1
+                    if rowset_dirs(d) != before:
+                        res["merged"] += 1
                 for t, q in QUERIES.items():
                     r = rl.sql(q)
                     res["queries"] += 1
@@ -258,15 +275,43 @@ def run(tier, seed):
     try:
         ref, files = build_pristine(base)
         muts, exhaustive = gen_mutations(rng, files, tier, base)
+        # the same database opened with a layout in which the compaction pass merges the row-sets of each table (mutations drawn
+        # from a stream of their own; a third of them in the first block of a file, which is read when an iterator is created)
+        # (the same files: the row-set target is an option of the opening process, not of the files)
+        base2, ref2, files2 = base, ref, files
+        rng2 = random.Random(f"c18m-{seed}")
+        muts2 = []
+        cols2 = [(f, size) for f, size in files2 if f.endswith(".col")]
+        for f, size in cols2:
+            bounds = block_bounds(os.path.join(base2, "db", f))
+            first_end = bounds[0][1] if bounds else min(size, 64)
+            n_first, n_any = (3, 4) if tier == "quick" else (40, 80)
+            for _ in range(n_first):
+                muts2.append(dict(kind="bit", file=f, pos=rng2.randrange(first_end), bit=rng2.randrange(8), layout="merge"))
+            for _ in range(n_any):
+                k = rng2.random()
+                if k < 0.6:
+                    muts2.append(dict(kind="bit", file=f, pos=rng2.randrange(size), bit=rng2.randrange(8), layout="merge"))
+                elif k < 0.8:
+                    muts2.append(dict(kind="byte", file=f, pos=rng2.randrange(size), val=rng2.choice([0, 0xFF, 0x7F]), layout="merge"))
+                else:
+                    muts2.append(dict(kind="trunc", file=f, len=rng2.choice([0, 1, size - 1, size // 2, rng2.randrange(size)]), layout="merge"))
+        muts = muts + muts2
+        bases, refs = {"small": base, "merge": base2}, {"small": ref, "merge": ref2}
         rep.rule = ("mutations of the .col/.idx files of a CRC32 database (2 tables, 5 row-sets, 64-byte blocks): single-bit flips, "
                     "byte overwrites, truncations, zeroed ranges (incl. block trailers with the data in front of them) and misdirected "
                     "block writes (a block replaced by another, self-consistent block of the same file); thorough enumerates every bit of every file; per mutation 3 reads of every "
-                    "table, a compaction pass, a 4th read; distinct non-trivial = distinct mutations after which the database "
+                    "table, a compaction pass, a 4th read; the same files opened with a large row-set target, so that the pass "
+                    "merges all row-sets of a table (and so reads the damaged one); distinct non-trivial = distinct mutations after which the database "
                     "opened and at least one read was judged")
         outcomes = {}
         open_failed = {}
-        for res in parallel_map(run_mutation, [(base, ref, m) for m in muts]):
+        merged = passes = 0
+        for res in parallel_map(run_mutation, [(bases, refs, m) for m in muts]):
             rep.evaluations += 1
+            if res["m"].get("layout") == "merge":
+                merged += res.get("merged", 0)
+                passes += res.get("passes", 0)
             if res["inconclusive"]:
                 rep.inc(res["inconclusive"][:50])
                 continue
@@ -291,7 +336,10 @@ def run(tier, seed):
         rep.coverage.update(mutations_by_kind=kinds)
         rep.coverage.update(files=[f for f, _ in files], file_bytes=sum(s for _, s in files), outcomes=outcomes,
                             exhaustive=exhaustive, open_failures_by_file_type=open_failed)
+        rep.coverage.update(merge_layout=dict(mutations=len(muts2), compaction_passes=passes, passes_that_replaced_row_sets=merged,
+                                              files=[f for f, _ in files2]))
         rep.floor("mutations after which reads were judged", len(rep.distinct), len(muts) // 3)
+        rep.floor("compaction passes over a damaged table in the merging layout", passes, len(muts2) // 2)
         rep.assumptions = ["a mutation that leaves the decoded content identical may legitimately return the pristine rows",
                            "delete-vector files and the manifest are outside this property (C04)"]
         if tier == "thorough" and not os.environ.get("VERIF_OVERLAY"):
